@@ -9,6 +9,7 @@ tmp=$(mktemp)
 for d in seeded/$glob/; do
   id=$(basename $d)
   [ -f $d/patch.diff ] || continue
+  if python3 -c "import json,sys;sys.exit(0 if json.load(open('$d/meta.json')).get('retired') else 1)"; then printf "%s\t-\tretired\t\n" "$id" | tee -a $tmp; continue; fi
   prop=${id%%-*}
   chk=$(python3 -c "import json,sys;m=json.load(open('$d/meta.json'));print(m.get('detection',{}).get('caught_by') or m['property'])")
   res=$(LINES_MAX=40 tools/try_patch.sh $d/patch.diff $chk 2>&1)
